@@ -886,6 +886,13 @@ def split(x, n, axis=0):
     return [SymArray(p, x.dt) for p in _np.split(x.a, n, axis=axis)]
 
 
+def repeat(a, repeats, axis=None):
+    a = _A(a)
+    if isinstance(repeats, SymArray):
+        repeats = _concrete_index(repeats)
+    return SymArray(_np.repeat(a.a, repeats, axis=axis), a.dt)
+
+
 def tile(x, reps):
     x = _A(x)
     return SymArray(_np.tile(x.a, reps), x.dt)
@@ -945,8 +952,14 @@ def dot(a, b):
     return _wrap(r, _result_dt(a.dt, b.dt))
 
 
-def matmul(a, b):
-    return _A(a) @ b
+def matmul(a, b, out=None):
+    r = _A(a) @ b
+    if out is not None:
+        if not isinstance(out, SymArray):
+            raise TypeError("return arrays must be of ArrayType")
+        out[...] = r           # numpy semantics: the result is written into (and returned as) the caller's buffer
+        return out
+    return r
 
 
 def vdot(a, b):
